@@ -220,7 +220,8 @@ def unit_gait(S):
     ks = [z3.Int(f"k{i}") for i in range(2)]
     S.prove("advance_gait_phase/advances-by-2pi-f-dt-mod-2pi", ctx, z3.Exists(ks, z3.And(*[out.at((i,)) == ph.at((i,)) + 2 * pi * frc * dtc - 2 * pi * z3.ToReal(ks[i]) for i in range(2)])),
             hyps=hyp, function=F.format("advance_gait_phase"), what="each phase advances by 2*pi*frequency*dt modulo 2*pi")
-    q1, q2 = z3.Int("fmodq!1"), z3.Int("fmodq!2")  # the integer quotients introduced by the fmod rule for the two phases
+    _ = [out.at((i,)) for i in range(2)]
+    q1, q2 = ctx.fmod_quotients[0], ctx.fmod_quotients[1]  # the integer quotients introduced by the fmod rule for the two phases
     base = ph.at((0,)) - ph.at((1,))
     diff = out.at((0,)) - out.at((1,))
     S.prove("advance_gait_phase/half-cycle-apart-preserved", ctx, z3.Or(diff == base + 2 * pi * z3.ToReal(q1 - q2), diff == base + 2 * pi * z3.ToReal(q2 - q1)), hyps=hyp,
